@@ -375,3 +375,11 @@ RULES = [
     ("C13.e", "post-poll return only if wake count cleared and not closed", rule_e),
     ("C13.f", "core accessed after acquire", rule_f),
 ]
+
+
+def rule_inventory(ctx):
+    from . import inventory
+    inventory.check(ctx, ['file:st_executor', 'file:mt_executor', 'file:injector'])
+
+
+RULES.append(("C13.g", "state-mutation inventory: no new site that changes the content of the state this property rests on", rule_inventory))
